@@ -60,6 +60,9 @@ def run(ctx):
     # in both traversals (shared with C17.2); and no condition is dropped between cost pre-charging and parsing (shared with C04.2)
     from . import c17, c04
     c17.c17_2(ctx, R="C02.4")
+    # the precomputed-hash table is consulted only for allocator small-ints (index sites / guard), shared with C17.1: a
+    # table lookup added on the byte-buffer path changes coin-id inputs (puzzle hashes) for one-byte atoms not stored as small ints
+    c17.c17_1(ctx, R="C02.4")
     c04.c04_2(ctx, c04.load(), R="C02.3")
 
 
